@@ -8,6 +8,11 @@ from ..index import ClassInfo, AnalysisError
 from .c03 import is_abstract
 from .c13 import estimator_classes, public_methods
 
+
+def _cn(c):
+    f = c.func
+    return f.id if isinstance(f, ast.Name) else (f.attr if isinstance(f, ast.Attribute) else None)
+
 POSITIVE_EXAMPLE = '''
 import numpy as np
 def f(n):
@@ -325,6 +330,51 @@ def run(p, report, tier):
     report.analysed["diagnostics"] = sorted(diag)
     report.analysed["call_resolution"] = callstats
     report.tables["external_estimators_drawing_in_fit"] = sorted(EXT_DRAWING_CLASSES)
+    report.rule("R6.10", "the sampling method that `_check_ensemble` looks up by NAME on the caller's ensemble "
+                "(`sample_predictions_method_name`, a bound method the analyser cannot resolve) draws from the strategy's "
+                "generator: the parameter dict it is called with was given a `random_state` derived from self.random_state_ "
+                "(directly, or by a helper that adds one) - sample_proba / sample_y default to random_state=None, i.e. to "
+                "numpy's global generator", floor=2)
+    n610 = 0
+    for f in p.all_functions():
+        if "/tests/" in f.file or not f.file.startswith("skactiveml/pool/"):
+            continue
+        for a in ast.walk(f.node):
+            if not (isinstance(a, ast.Assign) and isinstance(a.value, ast.Call) and _cn(a.value) == "_check_ensemble"
+                    and isinstance(a.targets[0], (ast.Tuple, ast.List)) and len(a.targets[0].elts) >= 5):
+                continue
+            sf, sd = a.targets[0].elts[3], a.targets[0].elts[4]
+            if not (isinstance(sf, ast.Name) and isinstance(sd, ast.Name)):
+                continue
+            for c in ast.walk(f.node):
+                if not (isinstance(c, ast.Call) and isinstance(c.func, ast.Name) and c.func.id == sf.id):
+                    continue
+                n610 += 1
+                ok = any(k.arg == "random_state" for k in c.keywords)
+                for k in c.keywords:
+                    if k.arg is None and isinstance(k.value, ast.Name):
+                        d = k.value.id
+                        for b in ast.walk(f.node):
+                            if isinstance(b, ast.Assign) and a.lineno < b.lineno < c.lineno \
+                                    and any(isinstance(t, ast.Name) and t.id == d for t in b.targets):
+                                v = b.value
+                                if isinstance(v, ast.Call) and any(kk.arg == "random_state" for kk in v.keywords):
+                                    ok = True
+                                if isinstance(v, ast.Call) and isinstance(v.func, ast.Name):
+                                    r = p.resolve_name(f.module, v.func.id)
+                                    if r and r[0] == "func" and "random_state" in {x.arg for x in ast.walk(r[1].node) if isinstance(x, ast.keyword)} \
+                                            and any("random_state_" in ast.unparse(x) for x in v.args + [kk.value for kk in v.keywords]):
+                                        ok = True
+                            if isinstance(b, ast.Assign) and a.lineno < b.lineno < c.lineno and isinstance(b.targets[0], ast.Subscript) \
+                                    and isinstance(b.targets[0].value, ast.Name) and b.targets[0].value.id == d \
+                                    and isinstance(b.targets[0].slice, ast.Constant) and b.targets[0].slice.value == "random_state":
+                                ok = True
+                report.add("R6.10", f.qual, f"`{norm_stmt(c, 50)}` samples with the strategy's generator", f"{f.file}:{c.lineno}", ok,
+                           detail="random_state bound from self.random_state_" if ok else
+                           f"`{sd.id}` is the user's sample_predictions_dict as it is: without a random_state entry the sampling method "
+                           f"falls back to its default (None = numpy's global generator), so two identically seeded strategies / "
+                           f"repeated calls return different utilities")
+    report.analysed["dynamic_sampling_calls"] = n610
     report.assumptions += [
         "an external estimator not in the table does not draw random numbers in fit",
         "random_state=None chosen by the caller (constructor parameter) is outside the property's premise",
